@@ -443,13 +443,26 @@ def readFrames : Nat → Bool → Nat → Labels → Bytes → TM (Labels × Byt
     let l ← l.getOrCreate offset
     readFrames n false offset l s
 
-/-- one entry of the CLDC `StackMap` attribute -/
-def readCldcFrame (l : Labels) (s : Bytes) : TM (Labels × Bytes) := do
+/-- one entry of the CLDC `StackMap` attribute: the offset is only collected (69346bc: the labels of the frames are
+created after all entries have been read, in the order of the offsets) -/
+def readCldcFrame (l : Labels) (s : Bytes) : TM (Nat × Labels × Bytes) := do
   let (offset, s) ← u16 s
   let (l, s) ← vec16L readVType l s
   let (l, s) ← vec16L readVType l s
-  let l ← l.getOrCreate offset
-  pure (l, s)
+  pure (offset, l, s)
+
+def readCldcFrames : Nat → Labels → List Nat → Bytes → TM (Labels × List Nat × Bytes)
+  | 0, l, acc, s => pure (l, acc, s)
+  | n + 1, l, acc, s => do
+    let (o, l, s) ← readCldcFrame l s
+    readCldcFrames n l (o :: acc) s
+
+/-- `labels.get_or_create(offset)?` for every frame, in this order -/
+def createAll : List Nat → Labels → TM Labels
+  | [], l => pure l
+  | o :: os, l => do
+    let l ← l.getOrCreate o
+    createAll os l
 
 def readLine (l : Labels) (s : Bytes) : TM (Labels × Bytes) := do
   let (pc, s) ← u16 s
@@ -536,7 +549,10 @@ def readCodeAttr (st : AttrState) (s : Bytes) : TM (AttrState × Bytes) := do
     guard (!st.haveFrames)
     pure ({ labels := l, haveFrames := true }, s)
   else if name = jstr "StackMap" then do
-    let (l, s) ← vec16L readCldcFrame st.labels s
+    let (n, s) ← u16 s
+    request n
+    let (l, offsets, s) ← readCldcFrames n st.labels [] s
+    let l ← createAll (offsets.mergeSort (fun a b => decide (a ≤ b))) l    -- `sort_by_key(offset)`, equal keys are equal
     guard (!st.haveFrames)
     pure ({ labels := l, haveFrames := true }, s)
   else if name = jstr "LineNumberTable" then do
